@@ -93,6 +93,18 @@ def group_roles(gfn):
     ordg = _assigned(gfn, lambda v: isinstance(v, ast.Call) and unparse(v.func) == r["ORDER"] + ".get" and len(v.args) == 1 and not v.keywords)
     r["ORD"] = ordv[0] if ordv else (ordg[0] if ordg else "?")
     r["ORD_VIA_GET"] = bool(ordg) and not ordv
+    r["ENTRY"] = None
+    merged = [n for n in walk_no_nested(gfn) if isinstance(n, ast.Assign) and unparse(n.targets[0]) == r["ORDER"] and isinstance(n.value, ast.DictComp)
+              and isinstance(n.value.value, ast.Tuple) and len(n.value.value.elts) == 2]
+    if merged and r["FIELDS"] == "?":
+        # one table {tag: (position, member)}: the entry local is looked up once and unpacked into (index, member)
+        entry = ordg[0] if ordg else (ordv[0] if ordv else None)
+        for n in walk_no_nested(gfn):
+            if entry and isinstance(n, ast.Assign) and isinstance(n.targets[0], ast.Tuple) and len(n.targets[0].elts) == 2 and unparse(n.value) == entry \
+                    and all(isinstance(e, ast.Name) for e in n.targets[0].elts):
+                r["ENTRY"] = entry
+                r["ORD"] = n.targets[0].elts[0].id
+                r["FIELDS"] = r["ORDER"]
     prev = [n for n in _assigned(gfn, lambda v: unparse(v) == r["ORD"])]
     # the previous-index local is the one the order test compares with the current index (`prev > idx`)
     cmp_txt = " ".join(unparse(n.test) for n in walk_no_nested(gfn) if isinstance(n, ast.If))
@@ -150,6 +162,14 @@ def run(ctx):
 
     # ------------------------------------------------------------------ rule 1
     n1 = 0
+    # a validator that calls through a local (a handler picked from a table at run time) is not modelled: the matrix below reads the
+    # rejecting branches off the validator's own control flow and would report them missing - say so instead of guessing
+    for q_ in (VALIDATE, HEADER, GROUP):
+        f_ = repo.func(q_)
+        locals_ = {x.id for x in walk_no_nested(f_) if isinstance(x, ast.Name) and isinstance(x.ctx, ast.Store)}
+        for c_ in walk_no_nested(f_):
+            if isinstance(c_, ast.Call) and isinstance(c_.func, ast.Name) and c_.func.id in locals_:
+                raise AnalysisError(f"{q_} dispatches through the local `{c_.func.id}` (a handler chosen at run time): the validator's branches are not visible to the check matrix")
     roles_g = group_roles(repo.func(GROUP))
     roles_v = message_roles(repo.func(VALIDATE))
     roles_h = message_roles(repo.func(HEADER))
@@ -181,7 +201,8 @@ def run(ctx):
     if "?" in (ORDER, FIELDS, ORD, PREV, FIRST, SM, roles_v["REQ"], roles_h["REQ"]):
         raise AnalysisError(f"validator locals not recognised by role: group {roles_g}, message {roles_v}, header {roles_h}")
     def not_member(fs):
-        return has(fs, rf"\w+ not in {ORDER}") or has(fs, rf"\w+ not in {FIELDS}") or (roles_g["ORD_VIA_GET"] and has(fs, rf"{ORD} is None"))
+        return has(fs, rf"\w+ not in {ORDER}") or has(fs, rf"\w+ not in {FIELDS}") or (roles_g["ORD_VIA_GET"] and has(fs, rf"{ORD} is None")) \
+            or (roles_g.get("ENTRY") and has(fs, rf"{roles_g['ENTRY']} is None"))
     matrix = {
         "unknown tag": (any_raise(rv, lambda fs: has(fs, r"\w+ not in self\._tag2field")),
                         any_raise(rg, not_member)),
@@ -265,7 +286,7 @@ def run(ctx):
         gen = dc.generators[0]
         if unparse(gen.iter) == "enumerate(self.members.values())" and isinstance(gen.target, ast.Tuple) and len(gen.target.elts) == 2 and not gen.ifs:
             i_n, f_n = (unparse(e) for e in gen.target.elts)
-            ok = unparse(dc.key) == f"{f_n}.tag" and unparse(dc.value) == i_n
+            ok = unparse(dc.key) == f"{f_n}.tag" and unparse(dc.value) in (i_n, f"({i_n}, {f_n})")
     ctx.instance(R2, "validate_group[order index = declaration order]", ok, "the order index is not {member.tag: position in the declared member list}", loc(gfn))
 
     # ------------------------------------------------------------------ rule 3
